@@ -507,7 +507,7 @@ def run_case(case, workdir):
 def acceptable(front, text):
     """True / False / None (None: the property does not say; e.g. unbalanced brackets)"""
     if front == "parser":
-        return text.strip() != ""
+        return not all(ch.isspace() for ch in text)     # blank = nothing but white space (str.isspace)
     if "[" not in text or "]" not in text:
         return False
     m = re.match(r"^[^\[\]]*(\[[^\[\]]*(?:\[[^\[\]]*\][^\[\]]*)*\])", text)   # prefix, then a balanced group (depth ≤ 2)
@@ -545,9 +545,14 @@ def die_spec(mode="plain", code=3, close_stdin=False, delay_close=0, delay_exit=
     return d
 
 
+UNI_BLANK = ["\u00a0", "\u2003", "\u3000", "\x85", "\u2028", "\u2029", "\x1c", "\x1d", "\x1e", "\x1f", "\u1680",
+             "\u2000", "\u200a", "\u202f", "\u205f", "\x0b", "\x0c"]
 SKIP_TEXTS = {
-    "parser": ["", " ", "\t \t", "   \t"],
-    "other": ["", "no mrs here TOK", "TOK ] [ reversed", "[ TOK unclosed [ x ]", "]] TOK", "TOK"],
+    "parser": ["", " ", "\t \t", "   \t", "\u00a0", "\u2003", "\u3000", "\x85", "\u2028", "\x1c", "\x1f",
+               "\x1c\x1d\x1e\x1f", " \u00a0 ", "\t\u2003\u3000", "\u2029\u205f\u1680", "\u202f \x85\t\u200a", "\x0b\x0c\u2000"],
+    "other": ["", "no mrs here TOK", "TOK ] [ reversed", "[ TOK unclosed [ x ]", "]] TOK", "TOK",
+              "\uff3b TOK \uff3d", "\u3010 TOK \u3011", "\u27e6TOK\u27e7", "\u3014 TOK \u3015", "\u2045 TOK \u2046 \uff3b x \uff3d",
+              "\uff3b TOK ]", "( TOK ) { x }"],
 }
 
 
@@ -561,9 +566,12 @@ def skip_text(front, idx, rng):
 def ok_text(front, idx, rng):
     tok = "i%dx" % idx
     if front == "parser":
-        return rng.choice(["%s dogs bark", "  %s leading", "%s trailing  \t", "\t%s [ brackets ] too ", "%s"]) % tok
+        return rng.choice(["%s dogs bark", "  %s leading", "%s trailing  \t", "\t%s [ brackets ] too ", "%s",
+                           "\u00a0%s dogs\u3000", "\u2003 %s\u2028", "%s\u2003inner\u00a0blanks \x85", "\x1c%s bark\x1f\u2029",
+                           " \u202f%s\u205fx\u1680 \t", "%s \u3000\u3000"]) % tok
     return rng.choice(["[ LTOP: h0 %s [ x ] ]", "junk before [ %s ] and after", "[ %s ] tail", "  [ %s ]  ",
                        "pre [ %s [ a ] [ b ] ]", "[%s]", "x ] [ %s ]", "junk [ %s [ a ] ] tail",
+                       "\u00a0[ %s\u3000x ]\u2003", "\uff3b y \uff3d [ %s ] \u3010 z \u3011", "[ %s \u2028 x ]\x85",
                        "j [ [ b ] %s ] t"]) % tok
 
 
@@ -624,6 +632,10 @@ class C19(Check):
         out.append("/-- termini `ACEGenerator._tsdb_receive` passes to `_result_lines`: %s -/" % json.dumps(gt))
         out.append("def generatorTsdbTermini : List Terminus := [%s]" % ", ".join(classify(p) for p in gt))
         out.extend(self.pins(captured[0]))
+        out.append("/-- every code point `c` with `chr(c).isspace()` in the running interpreter: what `str.strip()` "
+                   "removes -/")
+        out.append("def c19SpaceCodes : List Nat := [%s]"
+                   % ", ".join(str(c) for c in range(0x110000) if chr(c).isspace()))
         return out
 
     # ---- pins: the source constants the model (and the oracle) hand-code an equivalent of
@@ -921,6 +933,9 @@ class C19(Check):
                 line = reads[tok][0][2]
                 if line.strip() == "" or line not in it["text"] or line != line.rstrip("\n"):
                     fail("the processor receives (a part of) the input text on one line", step=idx, line=line)
+                if front == "parser" and line != it["text"].strip():
+                    fail("the parser's processor receives exactly the input without its surrounding white space",
+                         step=idx, line=line)
                 if front != "parser" and not (line.startswith("[") and line.endswith("]")) \
                         and line != it["text"].rstrip():
                     fail("the processor receives the MRS part of the input", step=idx, line=line)
@@ -1100,6 +1115,7 @@ class C19(Check):
                            exit_ok=6, runnote=(ci % 2 == 1)))
         cs.extend(regression_cases())
         cs.extend(long_cases())
+        cs.extend(unicode_cases())
         if tier == "thorough":
             # every byte position of one answer per configuration
             for front, tsdb, show in configs:
@@ -1358,10 +1374,45 @@ def long_cases():
     return cs
 
 
+def unicode_cases():
+    """Unicode white space and Unicode brackets: blank for the parser iff only str.isspace() characters; no MRS
+    for the generator/transferer when the only brackets are not ASCII `[` `]`"""
+    cs = []
+
+    def case(kind, front, tsdb, items):
+        return {"kind": kind, "front": front, "tsdb": tsdb, "show": [False, False], "items": items,
+                "runnote": True, "exit_ok": 0, "process_item": False}
+    blanks = SKIP_TEXTS["parser"][4:]
+    oks = ["\u00a0%s dogs\u3000", "\u2003 %s\u2028", "%s\u2003inner\u00a0blanks \x85", "\x1c%s bark\x1f\u2029",
+           " \u202f%s\u205fx\u1680 \t", "%s \u3000\u3000"]
+    for tsdb in (True, False):
+        for k in range(0, len(blanks), 3):
+            items = []
+            for j, b in enumerate(blanks[k:k + 3]):
+                items.append(mk_item(2 * j, "parser", "skip", text=b))
+                items.append(mk_item(2 * j + 1, "parser", text=oks[(k + j) % len(oks)] % ("i%dx" % (2 * j + 1))))
+            # a failure in between: the skipped inputs around it stay skipped
+            items[3] = dict(items[3], kind="die", die=die_spec(delay_exit=20), cut=0, sync=True)
+            cs.append(case("unicode-blank", "parser", tsdb, items))
+        cs.append(case("unicode-blank", "parser", tsdb,
+                       [mk_item(i, "parser", "skip", text=ch) for i, ch in enumerate(UNI_BLANK)]
+                       + [mk_item(len(UNI_BLANK), "parser")]))
+    for front, tsdb in (("generator", True), ("generator", False), ("transferer", False)):
+        items = []
+        for j, b in enumerate(SKIP_TEXTS["other"][6:]):
+            items.append(mk_item(2 * j, front, "skip", text=b.replace("TOK", "i%dx" % (2 * j))))
+            items.append(mk_item(2 * j + 1, front, text=["\u00a0[ %s\u3000x ]\u2003", "\uff3b y \uff3d [ %s ] \u3010 z \u3011",
+                                                         "[ %s \u2028 x ]\x85"][j % 3] % ("i%dx" % (2 * j + 1))))
+        cs.append(case("unicode-brackets", front, tsdb, items))
+    return cs
+
+
 def validate_cases(rng, n):
-    alpha = ["[", "]", "[", "]", " ", "\t", "a", "b ", "x", "\x0b", "\r", " "]
+    alpha = ["[", "]", "[", "]", " ", "\t", "a", "b ", "x", "\x0b", "\r", " ", "\u00a0", "\u3000", "\x85", "\u2028", "\x1c",
+             "\x1f", "\u2003", "\uff3b", "\uff3d", "\u200b", "\ufeff"]
     seen = set()
     fixed = ["", " ", "[]", "[ ]", "a[b]c", "[a", "a]", "][", "] [ ]", "[[]]", "[[]", "[]]", " [a] ", "x [a] [b]",
+             "\u00a0", "\u2003\u3000", "\x85", "\x1c\x1d\x1e\x1f", "\u200b", "\ufeff", "\u00a0a\u3000", "\uff3ba\uff3d", "\u00a0[a]\u2028",
              "[a] tail", "pre [a]", "x [a [b] c] y", "x [[a] b] y", "pre [a] ", "\t[a]\t", "a", " a ", "[a][b]", "[ [ ] ] x", "x [ [ ] ]"]
     for s in fixed:
         for front in ("parser", "generator"):
